@@ -14,6 +14,8 @@ import (
 	"path/filepath"
 	"strconv"
 	"strings"
+	"sync"
+	"sync/atomic"
 	"time"
 
 	"verifsim/scn"
@@ -101,12 +103,39 @@ func main() {
 	ok := func(text string) bool { return run.CompileOK(text) }
 	rep := &Report{Prop: *prop, Part: *part, Race: run.RaceBuild, Seed: *seed, From: *from, To: *to, Next: *to, Stats: run.NewStats()}
 	var nt []uint64
+	// a run that blocks the main goroutine for ever inside the package is a
+	// verdict (deadlock), not a crash: the watchdog files it and ends the process
+	var curScn atomic.Pointer[scn.Scenario]
+	var curIdx atomic.Uint64
+	var repMu sync.Mutex
+	run.HangWatch(func(detail string) {
+		repMu.Lock()
+		s := curScn.Load()
+		if s == nil {
+			os.Exit(2)
+		}
+		v := run.Violation{Prop: *prop, Kind: "deadlock", Class: "deadlock:blocked-for-ever", Detail: detail, Step: -1}
+		rep.Found = append(rep.Found, Found{Viol: v, All: []run.Violation{v}, Original: s, Minimised: s})
+		rep.Next = curIdx.Load() + 1
+		rep.WallS = time.Since(start).Seconds()
+		b, _ := json.Marshal(rep)
+		if *out == "" {
+			fmt.Println(string(b))
+		} else {
+			os.WriteFile(*out, b, 0o644)
+		}
+		os.Exit(0)
+	})
 	for i := *from; i < *to; i++ {
 		if *budget > 0 && time.Since(start) > *budget {
 			rep.Next = i
 			break
 		}
 		s := gen(*prop, *part, *seed, i, ok)
+		repMu.Lock()
+		curScn.Store(s)
+		curIdx.Store(i)
+		repMu.Unlock()
 		var r *run.Result
 		if s.Cfg.ColdProcess && s.Mode == "G" {
 			// executed in a pristine child process: the tasks meet a package in
@@ -143,6 +172,7 @@ func main() {
 			break
 		}
 		if len(r.Viol) > 0 {
+			curScn.Store(nil) // from here on a hang is trouble of the minimiser, not a verdict
 			f := Found{Viol: r.Viol[0], All: r.Viol, Original: s.Clone()}
 			f.Original.Sched = r.Sched
 			fresh := func(c *scn.Scenario) *run.Result { return childExec(c, *racelog, false) }
@@ -341,6 +371,20 @@ type ReplayFile struct {
 }
 
 func doReplay(path string, opt run.Options, trace, jsonOut bool) int {
+	run.HangWatch(func(detail string) {
+		v := run.Violation{Kind: "deadlock", Class: "deadlock:blocked-for-ever", Detail: detail, Step: -1}
+		if jsonOut {
+			b, _ := json.Marshal(struct {
+				Viol  []run.Violation
+				Sched []int
+				Trace []string
+			}{[]run.Violation{v}, nil, nil})
+			os.Stdout.Write(b)
+		} else {
+			fmt.Printf("violation kind=%s class=%s: %s\n", v.Kind, v.Class, v.Detail)
+		}
+		os.Exit(1)
+	})
 	b, err := os.ReadFile(path)
 	if err != nil {
 		fmt.Fprintln(os.Stderr, "xpsim:", err)
